@@ -680,6 +680,11 @@ func (r *runT) body() {
 	r.firstSeen = map[string]seenT{}
 	r.holdReached, r.holdRelease = make(chan struct{}), make(chan struct{})
 	rigs.Store(r.lg, r)
+	// census before NewConnection: nothing carries this scenario's label yet
+	// (the latest shared snapshot is enough, a label is used only once)
+	if s0 := census.take(time.Time{}, false); len(s0.libGroups(r.label)) != 0 {
+		r.c.Count("census_before_not_empty", 1)
+	}
 	r.peer = newRawEnd(r.b, !cs.Server, r.wake)
 	go r.peer.readLoop()
 
@@ -748,15 +753,6 @@ func (r *runT) body() {
 	immediate := false
 	terminal := false
 	aborted := false
-	floodMsg := cs.Flood
-	if floodMsg.Name == "" {
-		for _, s := range cs.Conv {
-			if !s.Recv && !cs.Server {
-				floodMsg = s.W
-				break
-			}
-		}
-	}
 	for i := 0; i <= len(cs.Conv) && !terminal; i++ {
 		if i == cs.InvokeAt {
 			if f.Pos == posPre {
